@@ -15,11 +15,6 @@ pub mod stubs {
     }
 }
 
-/// ColorPaletteEntry has private fields; palette.rs's overlay exposes a constructor for sibling overlays.
-pub fn mk_entry(id: u32, rgba: [u8; 4]) -> crate::palette::ColorPaletteEntry {
-    crate::palette::verif_overlay::mk_entry(id, rgba)
-}
-
 /// Concretise a little-endian u16 field of a symbolic payload (string lengths: a symbolic-length
 /// allocation + copy is what makes CBMC intractable; see DESIGN.md section 3).
 pub fn pin16(d: &mut [u8], off: usize, v: u16) {
